@@ -136,7 +136,18 @@ func coqKVs(kvs []KV) string {
 	return lib.CoqListOf(kvs, func(kv KV) string { return fmt.Sprintf("KV %s %s", coqZ(kv[0]), coqZ(kv[1])) })
 }
 
+// small numbers are written as the constants z0..z399 / n0..n9 of Corr/C17.v (number literals are slow to read)
+func coqN(n int) string {
+	if n >= 0 && n < 10 {
+		return fmt.Sprintf("n%d", n)
+	}
+	return fmt.Sprintf("%d", n)
+}
+
 func coqZ(z int64) string {
+	if z >= 0 && z < 400 {
+		return fmt.Sprintf("z%d", z)
+	}
 	if z < 0 {
 		return fmt.Sprintf("(%d)", z)
 	}
@@ -144,7 +155,7 @@ func coqZ(z int64) string {
 }
 
 func (q Stmt) coq() string {
-	t := fmt.Sprintf("%d", q.T)
+	t := coqN(q.T)
 	switch q.K {
 	case "read":
 		return "QRead " + t
@@ -175,13 +186,13 @@ func (q Stmt) coq() string {
 	case "badddl":
 		return "QBad"
 	case "joinread":
-		return fmt.Sprintf("QJoinRead %s %d", t, q.U)
+		return fmt.Sprintf("QJoinRead %s %s", t, coqN(q.U))
 	case "updjoin":
-		return fmt.Sprintf("QUpdJoin %s %d %s %s", t, q.U, coqZ(q.A), coqZ(q.B))
+		return fmt.Sprintf("QUpdJoin %s %s %s %s", t, coqN(q.U), coqZ(q.A), coqZ(q.B))
 	case "inssel":
-		return fmt.Sprintf("QInsSel %s %d %s", t, q.U, coqZ(q.A))
+		return fmt.Sprintf("QInsSel %s %s %s", t, coqN(q.U), coqZ(q.A))
 	case "deljoin":
-		return fmt.Sprintf("QDelJoin %s %d %s", t, q.U, coqZ(q.A))
+		return fmt.Sprintf("QDelJoin %s %s %s", t, coqN(q.U), coqZ(q.A))
 	case "commit":
 		return "QCommit"
 	case "rollback":
@@ -714,17 +725,12 @@ func run(c *lib.Ctx, cs caseT) {
 		default:
 			commitPoint = !inTx
 		}
-		rejectRO := sr.ro && q.isDML()
-		// reference: the statement's own effect on the private view
+		// reference: the statement's own effect on the private view.  A savepoint statement must change nothing whether it is
+		// refused (this backend) or accepted; DML refused by a READ ONLY transaction must change nothing (whether it has to
+		// be refused is C42's question: an accepted one is treated as the write it is)
+		rejectedRO := sr.ro && q.isDML() && o.Kind == "err"
 		switch {
-		case q.K == "sp":
-			if o.Kind != "err" {
-				fail("savepoint-accepted", fmt.Sprintf("step %d session %d: %s succeeded on a backend without savepoints", i, q.S, q.sql()))
-			}
-		case rejectRO:
-			if o.Kind != "err" {
-				fail("write-in-read-only-transaction", fmt.Sprintf("step %d session %d: %s was accepted inside a READ ONLY transaction", i, q.S, q.sql()))
-			}
+		case q.K == "sp", rejectedRO:
 		case q.isMulti():
 			sr.ensure(q.T)
 			sr.ensure(q.U)
@@ -882,8 +888,25 @@ func run(c *lib.Ctx, cs caseT) {
 			}
 			last[full[i].T] = obs[i].Rows
 		}
-		items[i] = fmt.Sprintf("Ev %d (%s) (%s)", full[i].S, full[i].coq(), o)
+		items[i] = fmt.Sprintf("Ev %s (%s) (%s)", coqN(full[i].S), full[i].coq(), o)
 	}
+	// the observer's round over all tables with nothing new is one token
+	var packed []string
+	for i := 0; i < len(items); i++ {
+		if full[i].S == 0 && full[i].T == 0 && i+nTables <= len(items) {
+			all := true
+			for j := 0; j < nTables; j++ {
+				all = all && full[i+j].S == 0 && full[i+j].K == "read" && full[i+j].T == j && strings.HasSuffix(items[i+j], "(OSame)")
+			}
+			if all {
+				packed = append(packed, "EvS")
+				i += nTables - 1
+				continue
+			}
+		}
+		packed = append(packed, items[i])
+	}
+	items = packed
 	tabs := make([]string, nTables)
 	for t := range tabs {
 		tabs[t] = "[]"
